@@ -8,6 +8,7 @@
                          to strings), every live key was handed out by the allocator.
 -/
 import DuckModel.Lemmas.CollectionsRelease
+import DuckModel.Props.C12Scripts
 
 namespace Duck
 open Duck.Coll
@@ -358,7 +359,7 @@ theorem C12_last_set_wins (m : Coll.St) (h i : Str) (n : Nat) (l : List Item)
 
 /-- allocator invariant: every live key is `handle:<k>` for some k below the counter -/
 def AllocInv (m : Coll.St) : Prop :=
-  ∀ h, tget m.tbl h ≠ none → ∃ k, k < m.next ∧ h = handleName k
+  ∀ h, tget m.tbl h ≠ none → ∃ k, k < m.next ∧ h = Coll.handleName k
 
 /-- under the allocator assumption (the model's counter; for the code: the RNG never returns a
     live key) a freshly allocated handle differs from every live handle, allocation changes no
@@ -368,26 +369,26 @@ theorem C12_fresh_handles_distinct (m : Coll.St) (hI : AllocInv m) (v : Value) :
     (∀ h w, tget m.tbl h = some w → h ≠ (putHandle m v).2 ∧ tget (putHandle m v).1.tbl h = some w) ∧
     tget (putHandle m v).1.tbl (putHandle m v).2 = some v ∧
     AllocInv (putHandle m v).1 := by
-  have hfree : tget m.tbl (handleName m.next) = none := by
-    cases hv : tget m.tbl (handleName m.next) with
+  have hfree : tget m.tbl (Coll.handleName m.next) = none := by
+    cases hv : tget m.tbl (Coll.handleName m.next) with
     | none => rfl
     | some w =>
       obtain ⟨k, hk, e⟩ := hI _ (by rw [hv]; simp)
       have := handleName_inj e
       omega
   refine ⟨hfree, fun h w hw => ?_, by simp [putHandle, tget_tinsert], fun h hh => ?_⟩
-  · have hne : h ≠ handleName m.next := by
+  · have hne : h ≠ Coll.handleName m.next := by
       intro e; rw [e, hfree] at hw; cases hw
     exact ⟨hne, by simp [putHandle, tget_tinsert, hne, hw]⟩
   · simp only [putHandle, tget_tinsert] at hh
-    by_cases e : h = handleName m.next
+    by_cases e : h = Coll.handleName m.next
     · exact ⟨m.next, by simp [putHandle], e⟩
     · simp [e] at hh
       obtain ⟨k, hk, e'⟩ := hI h hh
       exact ⟨k, by simp [putHandle]; omega, e'⟩
 
 /-- two different allocation numbers give two different handle strings -/
-theorem C12_handle_names_injective (a b : Nat) (h : handleName a = handleName b) : a = b :=
+theorem C12_handle_names_injective (a b : Nat) (h : Coll.handleName a = Coll.handleName b) : a = b :=
   handleName_inj h
 
 /-- the invariant holds after every history -/
